@@ -367,6 +367,10 @@ def run(chk: Check, eng: Engine) -> None:
     from .c11 import gethash_rule
 
     gethash_rule(chk, eng, "R07-g")
+    chk.rule("R07-j", "a comparison that does not hold is never scored as satisfied (its score excludes 1.0 in float arithmetic; the verdict is `all(score == 1.0)`)", floor=3)
+    from .c02 import failing_score_rule
+
+    failing_score_rule(chk, eng, "R07-j")
     chk.rule("R07-h", "selector / constraint handlers use a constant-index accessor ctx.X(k) only where slot k of X is fixed by the grammar rule", floor=5)
     from .c08 import ordinal_accessor_rule
 
@@ -392,6 +396,7 @@ _EX = "src/fandango/constraints/exists.py"
 _IMP = "src/fandango/constraints/implication.py"
 _S = "src/fandango/language/search.py"
 MUTANTS = [
+    M("distance-made-live", "src/fandango/constraints/comparison.py", "    if dist is float | int:\n", "    if isinstance(dist, (int, float)):\n", "R07-j"),
     M("rs-slice-ordinal-accessors", "src/fandango/language/parse/convert.py", "            bounds: list[Optional[int]] = [None, None, None]\n            slot = 0\n            for child in ctx.getChildren():\n                if child.getText() == \":\":\n                    slot += 1\n                else:\n                    bounds[slot] = int(child.getText())\n            return slice(*bounds)",
       "            return slice(\n                int(ctx.NUMBER(0).getText()) if ctx.NUMBER(0) else None,\n                int(ctx.NUMBER(1).getText()) if ctx.NUMBER(1) else None,\n                int(ctx.NUMBER(2).getText()) if ctx.NUMBER(2) else None,\n            )", "R07-h"),
     M("gethash-xor-fold", "src/fandango/constraints/base.py", "                tuple((scope or {}).items()),\n", "                GeneticBase._fold(scope),\n", "R07-g",
